@@ -40,6 +40,10 @@ class YieldedError(Exception):
     pass
 
 
+class YieldedStop(StopIteration):
+    """A yielded Exception instance of the one built-in kind that a Future refuses to carry."""
+
+
 RAISE_TYPES = {'BatchBoom': BatchBoom, 'KeyError': KeyError, 'ValueError': ValueError, 'RuntimeError': RuntimeError,
                'LookupError': LookupError, 'TimeoutError': TimeoutError, 'OSError': OSError}
 
@@ -110,6 +114,9 @@ def run(case, max_steps=30000):
                     n += 1
                     if kind == 'exc':
                         obj = YieldedError(b, key)
+                    elif kind == 'excstop':
+                        # the built-in class itself in even batches, a subclass of it in odd ones
+                        obj = YieldedStop(b, key) if b % 2 else StopIteration(b, key)
                     elif kind == 'excclass':
                         obj = type('ExcClass_%d_%s' % (b, n), (Exception,), {})
                     else:
